@@ -441,7 +441,7 @@ Fixpoint emit_ty (up : str) (st : ung) (t : ty) (attr_name : str) (nested : bool
   | Prim s => (st, elem t_p [(k_class, s_fwbold_mb0)] [PText (tx b s)])
   | Comp c a =>
       let id0 := filter_tag_id (ci_t c) in
-      let sid := if nested then filter_make_unique st id0 else (st, id0) in
+      let sid := if nested then filter_make_unique st (id0 ++ nested_id_sep) else (st, id0) in
       let id := snd sid in
       let head :=
         toggle_anchor b s_jsvoid id s_toggle2
@@ -471,7 +471,7 @@ Fixpoint emit_ty (up : str) (st : ung) (t : ty) (attr_name : str) (nested : bool
        ++ elem t_div [(k_class, div_class b nested); (k_id, tx b id)] (docp ++ snd sb ++ [POpen t_hr []]))
   | Arr es dep d e =>
       let id0 := filter_tag_id (arr_tinfo es) in
-      let sid := if nested then filter_make_unique st id0 else (st, id0) in
+      let sid := if nested then filter_make_unique st (id0 ++ nested_id_sep) else (st, id0) in
       let id := snd sid in
       let head :=
         toggle_anchor b s_jsvoid id s_toggle2
@@ -796,7 +796,7 @@ Definition w_req : ty := Comp (mk_half "rega.Svc.Request") plain_u8.
 Definition w_resp : ty := Comp (mk_half "rega.Svc.Response") plain_u8.
 (* does the translated filter send the halves of a service to the service's own anchor? *)
 Definition url_links_service_def : bool :=
-  str_eqb (filter_url_from_type (ci_t (mk_half "rega.Svc.Request"))) (lit "../rega/#rega_Svc_1_0").
+  str_eqb (filter_url_from_type (ci_t (mk_half "rega.Svc.Request"))) (lit "../rega/#" ++ filter_tag_id (mk_tinfo "rega.Svc" "rega" 1 0)).
 Definition url_links_service : bool := Eval vm_compute in url_links_service_def.
 Definition w_svc : ty := Comp (mk_cinfo "rega.Svc" "rega" true)
                               (ANested (lit "request") [] w_req (ANested (lit "response") [] w_resp ANil)).
@@ -833,9 +833,11 @@ with refs_nsl (l : nsl) : list cinfo :=
   match l with NNil => [] | NCons n r => refs_ns n ++ refs_nsl r end.
 
 (* the anchor filter_url_from_type puts after '#': the tag id of the type, or of the SERVICE for its request/response halves *)
-Definition url_anchor (t : tinfo) : str :=
-  str_replace1 46 s_us (if ti_has_parent t then ti_full_namespace t else ti_full_name t)
-  ++ s_us ++ dec_of_Z (ti_major t) ++ s_us ++ dec_of_Z (ti_minor t).
+Definition anchor_tinfo (t : tinfo) : tinfo :=
+  {| ti_is_array := false; ti_elem_str := []; ti_full_name := if ti_has_parent t then ti_full_namespace t else ti_full_name t;
+     ti_major := ti_major t; ti_minor := ti_minor t; ti_root_ns := ti_root_ns t; ti_full_namespace := ti_full_namespace t;
+     ti_has_parent := false |}.
+Definition url_anchor (t : tinfo) : str := filter_tag_id (anchor_tinfo t).
 
 (* what pydsdl + "generate every root namespace that is referenced" guarantee about a referenced composite: its root
    namespace is one of the generated roots (a single DSDL identifier) and that root's tree lists a type whose id is the anchor *)
@@ -894,3 +896,29 @@ Fixpoint nst_ok (n : nst) : bool :=
   match n with NS name _ ts subs => quote_free name && forallb (fun e => ty_ok (snd e)) ts && nsl_ok subs end
 with nsl_ok (l : nsl) : bool :=
   match l with NNil => true | NCons n r => nst_ok n && nsl_ok r end.
+
+(* ---------------------------------------------------------------------------------------- *)
+(* 10. anchors identify types: vocabulary                                                    *)
+(* ---------------------------------------------------------------------------------------- *)
+Definition no_dash (s : str) : bool := forallb (fun c => negb (c =? 45)) s.
+Definition s_dash_n : str := [45; 110].
+(* X ++ "-n" ++ digits *)
+Definition nested_shape (x : str) : bool :=
+  match drop_while is_digit (rev x) with 110 :: 45 :: _ => true | _ => false end.
+(* the four kinds of ids a namespace page carries (L = tag ids of the types listed on the page) *)
+Definition id_class (L : list str) (x : str) : bool :=
+  str_in x L || no_dash x || ends_with x s_sidebar_sfx || nested_shape x.
+Definition is_comp (t : ty) : bool := match t with Comp _ _ => true | _ => false end.
+Fixpoint tops_ok (n : nst) : bool :=
+  match n with NS name _ ts subs => no_dash name && forallb (fun e => is_comp (snd e)) ts && tops_ok_l subs end
+with tops_ok_l (l : nsl) : bool := match l with NNil => true | NCons n r => tops_ok n && tops_ok_l r end.
+Definition version_ok (t : tinfo) : bool :=
+  (0 <=? ti_major t)%Z && (ti_major t <? 256)%Z && (0 <=? ti_minor t)%Z && (ti_minor t <? 256)%Z.
+(* witness of the id collision of the '_' scheme: T v1.1 nested once, and T v1.10 *)
+Definition w_t11 : ty := Comp {| ci_t := mk_tinfo "regc.T" "regc" 1 1; ci_deprecated := false; ci_port := None; ci_union := false;
+                                 ci_service := false; ci_svc_request := false; ci_doc := [] |} plain_u8.
+Definition w_t110 : ty := Comp {| ci_t := mk_tinfo "regc.T" "regc" 1 10; ci_deprecated := false; ci_port := None; ci_union := false;
+                                  ci_service := false; ci_svc_request := false; ci_doc := [] |} plain_u8.
+Definition w_a : ty := Comp (mk_cinfo "regc.A" "regc" false) (ANested (lit "old") [] w_t11 ANil).
+Definition w_site_collision : nst := NS (lit "regc") [] [(lit "A", w_a); (lit "T", w_t11); (lit "T", w_t110)] NNil.
+Fixpoint nodup_str (l : list str) : bool := match l with [] => true | x :: r => negb (str_in x r) && nodup_str r end.
